@@ -214,6 +214,9 @@ func (vm *Vm) runErrCheck(ctx context.Context, b []byte, err error) ([]byte, err
 	if !v {
 		return b, err
 	}
+	if location, _ := vm.st.Where(); location == "_catch" {
+		return b, err
+	}
 
 	b = NewLine(nil, MOVE, []string{"_catch"}, nil, nil)
 	return b, nil
